@@ -261,6 +261,9 @@ func GenProg(r Rand, o GenOpts) *Prog {
 			}
 			if k+1 < len(g.equs) && r.Intn(3) == 0 {
 				e = Bin{'+', Ref{g.equs[k+1]}, Lit{V: r.Intn(2)}}
+				if r.Intn(3) == 0 {
+					e = Ref{g.equs[k+1]} // a pure alias: one name standing for another
+				}
 			}
 			if k+2 < len(g.equs) && r.Intn(3) == 0 {
 				// the same EQU twice, then another one (substitution order must not matter)
